@@ -279,7 +279,9 @@ def main(argv=None):
         if inconclusive:
             problems += ["inconclusive: " + e for e in inconclusive[:10]]
         if unconfirmed:
-            problems += ["counterexample did not reproduce on the real code (model or stub wrong): %s %s -> %s" % (
+            problems += [("the replay of a counterexample raised (harness error): %s %s -> %s" % (c.get("name"), json.dumps(v)[:200], str(r.get("error", "")).strip().splitlines()[-1:] ))
+                         if isinstance(r, dict) and r.get("error") else
+                         "counterexample did not reproduce on the real code (model or stub wrong): %s %s -> %s" % (
                 c.get("name"), json.dumps(v)[:300], json.dumps(r, default=str)[:300]) for c, v, r in unconfirmed[:5]]
         if unreached:
             problems += ["assertion site never reached (vacuity): " + s for s in unreached]
